@@ -103,8 +103,9 @@ def maximal_witnesses(hists):
 ROUTESETS = [
     ('1m', ['5m', '15m']), ('5m', ['15m']), ('3m', ['15m', '1m']), ('15m', ['1h']), ('1m', ['3m']),
     ('1m', ['30m', '45m']), ('5m', ['1h', '4h']), ('3m', ['45m']), ('1m', ['2h', '3h']), ('15m', ['6h']),
-    ('1h', ['4h']), ('30m', ['2h']), ('5m', []), ('45m', ['3h']), ('1m', ['1D']), ('4h', ['8h', '12h']), ('2h', ['1D']),
+    ('1h', ['4h']), ('30m', ['2h']), ('5m', []), ('45m', ['3h']), ('4h', ['8h', '12h']),
 ]
+BIGSETS = [('1m', ['1D']), ('2h', ['1D']), ('15m', ['12h', '1D'])]
 
 
 def lcm(xs):
@@ -119,6 +120,8 @@ def random_cases(ctx, rng, n_cases, first_id):
     cases = []
     for c in range(n_cases):
         ttf, dtfs = ROUTESETS[c % len(ROUTESETS)] if c < 3 * len(ROUTESETS) else rng.choice(ROUTESETS)
+        if c % 50 in (16, 41):
+            ttf, dtfs = BIGSETS[(c // 25) % len(BIGSETS)]
         two = (c % 5 == 4) and TFMIN[ttf] <= 15
         trading = [(B, ttf)] + ([(E, ttf)] if two else [])
         data = [(B, t) for t in dtfs] + ([(E, dtfs[0])] if two and dtfs else [])
